@@ -98,8 +98,10 @@ func (core *JApiCore) collectPathVariables(d *directive.Directive) *jerr.JApiErr
 	parentDirective := *d.Parent
 
 	if len(core.rawPathVariables) != 0 {
-		prevParent := core.rawPathVariables[len(core.rawPathVariables)-1].parentDirective
-		if prevParent.Equal(parentDirective) {
+		// Two Path directives under one parent. The parents are compared by identity: the copies which PASTE makes of a
+		// MACRO body keep the coordinates of the original, so that the same macro pasted twice looked like one parent.
+		prev := core.rawPathVariables[len(core.rawPathVariables)-1]
+		if prev.pathDirective.Parent == d.Parent {
 			return d.KeywordError(jerr.NotUniqueDirective)
 		}
 	}
